@@ -29,9 +29,12 @@ CLAIMED = {
          "For every solved explored return all permutations of payer-form copies and sampled increments are re-solved by the real solver and each pair is judged by the TLA+ relations of Metamorphic.tla.", "6/C16"),
  "C17": ("translation_validation", "TLC evaluates CatalogueFacts.tla on introspected catalogue facts, real Form.threshold() look-ups and the parsed output of list-forms / list-form-inputs",
          "Exhaustive over every (year, form class, allowed instance) and every (status-keyed threshold table, filing status) pair: instantiation, declared year, unique names, metadata, name hygiene; the Lookup operator of the specification must give exactly one value per status and the real Form.threshold() must return it; the list-form-inputs template, un-commented, must parse back to exactly the declared inputs.", "6/C17"),
+ "C20": ("model_checking", "TLC model checking of Session.tla (write-back in finally, every interruption point and kind, second session) + real CLI sessions judged by SessionTrace.tla",
+         "Session.tla composes the solver specification with the solve command's file handling and is model-checked over every prompt index and kind of interruption on generated programs; the real command is run in-process with a scripted keyboard and interrupted at every prompt index (generated programs) and sampled indices (real returns) by Ctrl-C and end of input, other sessions end in unsupported forms, failing lines or invalid file text; file before/after and the follow-up run are judged by TLC.", "6/C20"),
 }
 
 NOTES = {
+ "C20": "real sessions are in-process calls of habutax.solve() with builtins.input replaced; file contents compared up to surrounding whitespace; quick tier samples every 9th prompt index on real returns",
  "C09": "the gate catalogue data/gates.json is a frozen, reviewed list (freshness against the current tree is reported in the thorough tier's evidence, never as a violation); gates whose input no explored return reads are listed in the evidence as gates_never_read",
  "C08": "the Official table is my transcription (internal consistency axioms checked by TLC); the list of bound lines is in Statutory.tla, lines with statutory-looking constants outside it are reported as observed_not_judged; the pairing of NC child-deduction bands with amounts is left to C02",
  "C17": "trusted base: introspection of Form objects, configparser for parsing the printed template; inline if/elif status chains are not tables and are covered by C08 probes",
